@@ -31,6 +31,8 @@ type FutCase struct {
 	Seed    int64    `json:"seed,omitempty"`
 	Count   int      `json:"count,omitempty"`
 	Depth   int      `json:"depth,omitempty"`
+	Builders int     `json:"builders,omitempty"` // threads that each build the expression (0 = 1)
+	Prereg  int      `json:"prereg,omitempty"`   // derived futures built beforehand on the unmanaged goroutine
 }
 
 type futRec struct {
@@ -281,18 +283,33 @@ func c06Run(out *Out, c FutCase, ch sched.Chooser) {
 	for _, i := range c.Pre {
 		complete(i)
 	}
-	var derived fp.Future[TV]
-	built := false
+	nb := c.Builders
+	if nb == 0 {
+		nb = 1
+	}
+	derived := make([]fp.Future[TV], c.Prereg+nb)
+	built := make([]bool, c.Prereg+nb)
 	var buildPanic any
-	s.Start("build", func() {
-		defer func() {
-			if r := recover(); r != nil {
-				buildPanic = r
-			}
-		}()
-		derived = rec.buildFuture(c.Prog)
-		built = true
-	})
+	for j := 0; j < c.Prereg; j++ {
+		derived[j] = rec.buildFuture(c.Prog)
+		built[j] = true
+	}
+	for j := 0; j < nb; j++ {
+		j := j
+		name := "build"
+		if j > 0 {
+			name = fmt.Sprintf("build%d", j+1)
+		}
+		s.Start(name, func() {
+			defer func() {
+				if r := recover(); r != nil {
+					buildPanic = r
+				}
+			}()
+			derived[c.Prereg+j] = rec.buildFuture(c.Prog)
+			built[c.Prereg+j] = true
+		})
+	}
 	for _, i := range c.Order {
 		i := i
 		s.Start(fmt.Sprintf("c%d", i), func() {
@@ -301,20 +318,35 @@ func c06Run(out *Out, c FutCase, ch sched.Chooser) {
 			complete(i)
 		})
 	}
+	// c: every derived future is complete; any: at least one is (its value is reported)
 	observe := func(e string) {
-		if !built {
-			out.Ev(e, "c", false, "ok", false, "v", []int{}, "err", "-")
+		all, anyc := true, false
+		var first fp.Try[TV]
+		mismatch := false
+		for j := range derived {
+			if !built[j] || !derived[j].IsCompleted() {
+				all = false
+				continue
+			}
+			t := derived[j].Value()
+			if !anyc {
+				first, anyc = t, true
+			} else if t.IsSuccess() != first.IsSuccess() || (t.IsSuccess() && fmt.Sprint(t.Get()) != fmt.Sprint(first.Get())) ||
+				(!t.IsSuccess() && effErrName(t.Failed().Get()) != effErrName(first.Failed().Get())) {
+				mismatch = true
+			}
+		}
+		if mismatch {
+			out.Ev("Mismatch")
+		}
+		if !anyc {
+			out.Ev(e, "c", false, "any", false, "ok", false, "v", []int{}, "err", "-")
 			return
 		}
-		if !derived.IsCompleted() {
-			out.Ev(e, "c", false, "ok", false, "v", []int{}, "err", "-")
-			return
-		}
-		t := derived.Value()
-		if t.IsSuccess() {
-			out.Ev(e, "c", true, "ok", true, "v", tv(t.Get()), "err", "-")
+		if first.IsSuccess() {
+			out.Ev(e, "c", all, "any", true, "ok", true, "v", tv(first.Get()), "err", "-")
 		} else {
-			out.Ev(e, "c", true, "ok", false, "v", []int{}, "err", effErrName(t.Failed().Get()))
+			out.Ev(e, "c", all, "any", true, "ok", false, "v", []int{}, "err", effErrName(first.Failed().Get()))
 		}
 	}
 	var picked []string
